@@ -198,8 +198,6 @@ val destroy : n -> st -> st
 
 val first_waiting : (n -> fut option) -> (n * n) list -> (n * n) option
 
-val scan_bad : (n -> fut option) -> (n * n) list -> bool
-
 val remove_first : n -> (n * n) list -> (n * n) list
 
 val unlink : n -> (n * n) list -> (n * n) list
